@@ -114,15 +114,16 @@ def run(ctx, chk):
                "%s:%d" % (cb.file, cb.line), fn=cb.name)
     cp = prog.fn("_cbor_copy_float_ctrl")
     FW = prog.enum("cbor_float_width")
+    import typestate as _ts
+    CS_ = _ts.CallSites(prog, eff, cache, {}, _ts.PredAlgebra(prog))
     seen = set()
     for pa in cache.get(cp.name):
         w = None
-        for key, vals in pa.st.inset.items():
-            k = key
-            while k[0] == "cast":
-                k = k[3]
-            if k[0] == "call" and k[1] == "cbor_float_get_width":
-                w = sorted(vals)
+        # the helper is only called for float/ctrl items: start from that type and apply the path's width tests
+        pts = {p for p in CS_.pts_all(cp, pa, ("arg", 0)) if p[0] == CS_.PA.float_type}
+        ws = sorted({p[2] for p in pts})
+        if ws and len(ws) < 4:
+            w = ws
         if not w or len(w) != 1 or w[0] == FW["CBOR_FLOAT_0"]:
             continue
         ws = {FW["CBOR_FLOAT_16"]: "2", FW["CBOR_FLOAT_32"]: "4", FW["CBOR_FLOAT_64"]: "8"}[w[0]]
